@@ -151,15 +151,25 @@ func formatError(e digError, w fmt.State, v rune) {
 // and handle panics in provided/invoked/decorated functions.
 func RootCause(err error) error {
 	var de Error
-	// Dig down to first non dig.Error, or bottom of chain
-	for ; errors.As(err, &de); err = errors.Unwrap(de) {
+	// Find the dig.Error in err; callers may have wrapped what we returned.
+	if !errors.As(err, &de) {
+		return err
 	}
 
-	if err == nil {
-		return de
+	// Dig down to first non dig.Error, or bottom of chain. An error that
+	// is not a dig.Error came from user code and is returned as-is, even
+	// if it wraps a dig.Error of its own.
+	for {
+		next := errors.Unwrap(de)
+		if next == nil {
+			return de
+		}
+		nde, ok := next.(Error)
+		if !ok {
+			return next
+		}
+		de = nde
 	}
-
-	return err
 }
 
 // errInvalidInput is returned whenever the user provides bad input when
